@@ -398,6 +398,10 @@ class Executor:
                 if k is not None and k.attr:
                     ac = "attr"
             gk = ("sym", attr) if (kind == "field" or ac == "attr") else (kind, owner.qname)
+            if kind in ("method", "property") and ac is None and self.modular:
+                vk = self.find_virtual(decl)
+                if vk is not None and vk.virtual and not vk.inline:
+                    gk = ("virtual", vk.key)
             groups.setdefault(gk, []).append(c)
         out: list[Res] = []
         if missing and self.feasible(st, z3.Or(*[smt.typ(obj.z) == self.types.cid(c) for c in missing])):
@@ -441,11 +445,11 @@ class Executor:
                         s2.assume(smt.lift(cl.fn(ctx)).z)
                 out.extend(self.ok(v, s2))
             elif kind == "property":
-                dc = classes[0] if len(classes) == 1 else None
+                dc = classes[0] if len(classes) == 1 and gk[0] != "virtual" else None
                 out.extend(self.call_function(decl, obj, [], {}, s2, node, dispatch_cls=dc))
             elif kind in ("method", "classmethod", "staticmethod"):
                 recv: Any = obj if kind == "method" else (ClassVal(c0) if kind == "classmethod" else None)
-                out.extend(self.ok(FuncVal(decl, recv, classes[0] if len(classes) == 1 else None), s2))
+                out.extend(self.ok(FuncVal(decl, recv, classes[0] if len(classes) == 1 and gk[0] != "virtual" else None), s2))
             elif kind == "classvar":
                 self.frames.append(Frame(None, owner.module, owner))
                 try:
@@ -721,29 +725,23 @@ class Executor:
     # --- sequences
     def seq_from_items(self, items: list[Any], td: TSeqT, st: State) -> SV:
         z = smt.fresh_const("seq", td.sort)
+        svs: list[SV] = []
         st.assume(td.info.len(z) == len(items))
         for i, it in enumerate(items):
             v = smt.coerce_to(it, td.elem) if isinstance(it, SV) else it
             if not isinstance(v, SV):
                 raise OutsideSubset(f"sequence element {it!r}")
             st.assume(td.info.at(z, i) == v.z)
+            svs.append(v)
+        h = self.hooks.get("seq_literal")
+        if h is not None:
+            h(self, svs, SV(td, z), st)
         return SV(td, z, fresh=True)
 
     def seq_concat(self, a: SV, b: SV, st: State) -> SV:
         td = a.td
         assert isinstance(td, TSeqT)
-        z = smt.fresh_const("cat", td.sort)
-        info = td.info
-        i = z3.Int(smt.fresh_name("i"))
-        st.assume(info.len(z) == info.len(a.z) + info.len(b.z))
-        st.assume(z3.ForAll([i], z3.Implies(z3.And(0 <= i, i < info.len(a.z)), info.at(z, i) == info.at(a.z, i)), patterns=[info.at(z, i)]))
-        st.assume(
-            z3.ForAll(
-                [i],
-                z3.Implies(z3.And(info.len(a.z) <= i, i < info.len(z)), info.at(z, i) == info.at(b.z, i - info.len(a.z))),
-                patterns=[info.at(z, i)],
-            )
-        )
+        z = td.info.cat(a.z, b.z)
         h = self.hooks.get("seq_concat")
         if h is not None:
             h(self, a, b, SV(td, z), st)
@@ -752,12 +750,7 @@ class Executor:
     def seq_snoc(self, a: SV, x: SV, st: State) -> SV:
         td = a.td
         assert isinstance(td, TSeqT)
-        info = td.info
-        z = smt.fresh_const("snoc", td.sort)
-        i = z3.Int(smt.fresh_name("i"))
-        st.assume(info.len(z) == info.len(a.z) + 1)
-        st.assume(z3.ForAll([i], z3.Implies(z3.And(0 <= i, i < info.len(a.z)), info.at(z, i) == info.at(a.z, i)), patterns=[info.at(z, i)]))
-        st.assume(info.at(z, info.len(a.z)) == smt.coerce_to(x, td.elem).z)
+        z = td.info.snoc(a.z, smt.coerce_to(x, td.elem).z)
         h = self.hooks.get("seq_snoc")
         if h is not None:
             h(self, a, x, SV(td, z), st)
